@@ -3,6 +3,7 @@ C04 — every normaliser erases the schedule.  All statements hold for every arr
 scheduler can produce (any permutation of the same multiset / any order of the increments).
 -/
 import MV.Model.Determ
+import MV.Model.DetermSites
 import MV.Proof.ParSort
 import MV.Props.C13a
 import MV.Props.C13b
@@ -159,5 +160,23 @@ theorem batchBoolean_serial_deterministic (xs ys : List (Nat × Nat)) (hp : xs.P
     have hnd : ((x :: y :: rest).map Prod.snd).Nodup := hserial.sublist (hsub.map _)
     rw [ex, ey] at hnd
     simp at hnd
+
+/-! ### The inventory of schedule-sensitive sites (regenerated from the source on every run) -/
+
+/-- every `AtomicAdd` / `fetch_add` / `compare_exchange` / `tbb::combinable` / `concurrent_map` /
+`tbb::task_group` site of src/*.cpp, src/*.h is in the reviewed table, and the side condition of
+its class holds for what the translator read at the site: integer counters and slot cursors are
+integral, floating-point accumulations and cursors without a normaliser run only in loops whose
+policy is `ExecutionPolicy::Seq`.  Proved by kernel evaluation over the GENERATED table. -/
+theorem all_sites_classified : MV.Gen.Atomics.sites.all Sites.siteOk = true := by decide +kernel
+
+/-- no stale line in the reviewed table -/
+theorem reviewed_sites_live : Sites.reviewedLive MV.Gen.Atomics.sites = true := by decide +kernel
+
+/-- the float rule is not vacuous: a parallel floating accumulation is rejected, the same site in
+a sequential loop is accepted (this was defect 9: `CalculateCurvature`) -/
+example : Sites.siteOk ⟨"properties.cpp", "CurvatureAngles", "atomicAdd", "area[vert] , area3", "double", ["auto"]⟩ = false := by decide +kernel
+example : Sites.siteOk ⟨"properties.cpp", "CurvatureAngles", "atomicAdd", "area[vert] , area3", "double", ["Seq"]⟩ = true := by decide +kernel
+example : Sites.siteOk ⟨"impl.cpp", "Manifold::Impl::Foo", "atomicAdd", "x[i] , 1", "int", ["auto"]⟩ = false := by decide +kernel
 
 end MV.Determ.C04
